@@ -54,7 +54,7 @@ PLAIN = {'dict': dict, 'odict': OrderedDict, 'list': list, 'tuple': tuple, 'set'
 LOGGING = dict(PLAIN, dict=LogDict, odict=LogODict, list=LogList, tuple=LogTuple, obj=LogObj)
 
 from glom import SKIP, STOP
-SENT = {'SKIP': SKIP, 'STOP': STOP}
+SENT = {'SKIP': SKIP, 'STOP': STOP, 'TK': ('a', 'b')}      # TK: a compound (tuple) dict key
 
 
 class Heap:
